@@ -108,9 +108,10 @@ func _absoluteWidth(box_ Box, context *layoutContext, containingBlock containing
 				}
 			}
 		} else if marginL == pr.AutoF {
-			box.MarginLeft = widthForMargins
+			// one auto margin: solve the equation of CSS 2.1 10.3.7 for it
+			box.MarginLeft = widthForMargins - marginR.V()
 		} else if marginR == pr.AutoF {
-			box.MarginRight = widthForMargins
+			box.MarginRight = widthForMargins - marginL.V()
 		} else if ltr {
 			box.MarginRight = widthForMargins
 		} else {
@@ -182,9 +183,10 @@ func absoluteHeight(box_ Box, containingBlock block) (bool, pr.Float) {
 			box.MarginTop = heightForMargins / 2
 			box.MarginBottom = box.MarginTop
 		} else if marginT == pr.AutoF {
-			box.MarginTop = heightForMargins
+			// one auto margin: solve the equation of CSS 2.1 10.6.4 for it
+			box.MarginTop = heightForMargins - marginB.V()
 		} else if marginB == pr.AutoF {
-			box.MarginBottom = heightForMargins
+			box.MarginBottom = heightForMargins - marginT.V()
 		} else {
 			box.MarginBottom = heightForMargins
 		}
